@@ -10,8 +10,8 @@
   DOMAIN of the string functions: ASCII text (with `re.I`, `[XYZI]` also matches U+0130 / U+0131, which the model excludes too).
 
   Tied: `_is_in_brackets`, `_parse_complex`, `_parse_operator` (for ALL strings).  `_parse_operators_and_coefficient` is translated and
-  compared with the Python function on every run, and pinned on concrete inputs below, but its tie to `parseOpsAndCoef` is NOT proved
-  (the equality of the regular-expression split with the model's split-and-strip was not established in this package).
+  compared with the Python function on every run and pinned on concrete inputs below; its tie to `parseOpsAndCoef` is proved in
+  `OQ/Props/C11_TranslatedText.lean` (work package T19: `translated_parse_operators_and_coefficient_eq`).
 -/
 import OQ.Lemmas.C11_TranslatedT9Parser
 import OQ.Props.C11
